@@ -92,6 +92,22 @@ def run(ctx):
         c12.check_op(ctx, m, "C05.b", "C05.b", *spec)
     c12.check_inplace(ctx, m, "C05.b", "HistogramBase", "__iadd__")
     c12.check_copy_contents(ctx, "C05.b", m)
+    for nm, op in (("__add__", ast.Add), ("__sub__", ast.Sub)):
+        f_ = HB.methods[nm]
+        o_ = [q for q in f_.params() if q != "self"][0]
+        n_p, bad_p = 0, []
+        for p_ in function_paths(f_.node):
+            if end_kind(p_) != "return":
+                continue
+            n_p += 1
+            sts_ = [s_[1] for s_ in p_ if s_[0] == "stmt"]
+            src_ = [U(x.value) for x in sts_ if isinstance(x, ast.Assign) and U(x.targets[0]) == "new"]
+            aug_ = [x for x in sts_ if isinstance(x, ast.AugAssign) and U(x.target) == "new" and isinstance(x.op, op) and U(x.value) == o_]
+            if src_ != ["self.copy()"] or len(aug_) != 1 or U(p_[-1][2].value) != "new":
+                bad_p.append(f"new = {src_}, {'no' if not aug_ else len(aug_)} `new {'+' if op is ast.Add else '-'}= {o_}`")
+        ctx.check(n_p >= 1 and not bad_p, "C05.b", f"HistogramBase.{nm}:every-path", f"all {n_p} path(s): new = self.copy(); new {'+' if op is ast.Add else '-'}= other; return new",
+                  f"a path of {nm} does not combine the operands through the in-place operator on a copy of self ({bad_p[:1]}): "
+                  "what the left operand holds (missed weights, statistics, dtype) can be dropped", f_.where)
     # C12's helpers use their own keys for freshness and write-discipline under the same rule id: fine, keys differ? make sure
     # ---- C05.c one grid for both operands -----------------------------------------------------------------------
     ctx.rule("C05.c", "adaptive branch: both operands re-binned onto the same new binning with their own maps on the same axis; "
@@ -331,3 +347,6 @@ def run(ctx):
         and "np.allclose(self.bins, other.bins)" in txt
     ctx.check(okh, "C05.e", "HistogramBase.has_same_bins", "shape, then np.allclose of the bins of every axis",
               "has_same_bins no longer compares the shape and the bins of every axis", hs.where)
+
+    # shared with C19: the option that admits non-histogram operands is off unless the environment says "1"
+    ctx.borrow("C19", ("default:env",), "C05.d")
